@@ -11,7 +11,10 @@ CLAIM = {
          "while the lock is free, releasing an unheld lock raises in the releasing task only. (b) Scheduler.callLater / CallLaterTask and "
          "Scheduler.schedule / ScheduleTask with every foreign call treated as atomic and interleaved in a symbolic order with cycle() steps: every "
          "submitted callable runs exactly once, in submission order, from inside the scheduler; a failing callable does not stop the drain; a task woken "
-         "several times before it runs is queued once; the wake-up pinger is pinged whenever work is queued.",
+         "several times before it runs is queued once; the wake-up pinger is pinged whenever work is queued. (c) the threaded select hub's idle()/"
+         "break_idle() with threading.Event replaced by a recording model (hub thread never started): for all sequences up to length 3 (thorough 4) of "
+         "break_idle / schedule / callLater / hub hand-back / idle, a wake-up since the previous idle() makes the next idle() return without blocking, "
+         "otherwise it blocks once for at most CYCLE_MAXIMUM.",
  'note': "NOT decided (outside the claim, see DESIGN.md): interleavings *inside* callLater/schedule/idle/break_idle/Synchronizer between real threads at "
          "bytecode granularity - CPython threads cannot be executed symbolically by this engine and a hand-written model of the GIL would verify the model, "
          "not POX. Trusted: CPython, z3, symx proxies, stub select/clock/pinger.",
@@ -20,7 +23,7 @@ EXPLANATION = ("Real Lock._do_acquire/_do_release through Scheduler.cycle, Sched
                "executed over solver-enumerated operation orders; holder/queue/order assertions on every path. Thread interleavings below operation "
                "granularity are not modelled.")
 FUNCTIONS = ["pox.lib.recoco.recoco.Lock.acquire/release/_do_acquire/_do_release", "Scheduler.callLater/schedule/fast_schedule/cycle", "CallLaterTask.callLater/run",
-             "ScheduleTask.run"]
+             "ScheduleTask.run", "SelectHub.__init__(threaded)/idle/break_idle/_return"]
 BOUNDS = {}
 OUTSIDE = ["real-thread interleavings at bytecode granularity (race-freedom clauses of the property)", "Synchronizer / SyncTask (real locks and threads)",
            "more than 3 tasks / 2 locks / 4 foreign calls"]
@@ -141,6 +144,70 @@ def h_calllater(ctx, plan):
   ctx.witness('done')
 
 
+class _NoThread:
+  """stands in for threading.Thread while the threaded SelectHub is built: the select thread is never started"""
+  daemon = False
+  def __init__(self, *a, **k): pass
+  def start(self): pass
+
+
+class _Event:
+  """threading.Event with its documented semantics; wait() on a clear flag is recorded as a blocking wait (up to the timeout)"""
+  def __init__(self): self.flag = False; self.blocked = 0; self.timeouts = []; self.wakes = 0
+  def set(self): self.flag = True; self.wakes += 1
+  def clear(self): self.flag = False
+  def is_set(self): return self.flag
+  isSet = is_set
+  def wait(self, timeout=None):
+    if not self.flag:
+      self.blocked += 1; self.timeouts.append(timeout)
+    return self.flag
+
+
+def h_idle(ctx, plan):
+  """threaded select hub at operation granularity: plan letters  B break_idle(), W schedule(task) from a foreign thread, C callLater(f),
+  T the hub thread hands a finished wait back (SelectHub._return), I the scheduler finds nothing ready and calls idle().
+  A wake-up that happened since the previous idle() must make the next idle() return without blocking (no reliance on the polling timeout)."""
+  R, s, clock, fs = make_sched(ctx, budget=0)
+  real_thread = R.Thread
+  R.Thread = _NoThread
+  try:
+    hub = R.SelectHub(s, use_epoll=False, threaded=True)
+  finally:
+    R.Thread = real_thread
+  ev = _Event(); hub._event = ev
+  s._selectHub = hub
+  seen = 0             # wake-ups (Event.set calls) that an earlier idle() has already consumed
+  ran = []
+  def mk(i):
+    def gen():
+      ran.append(i)
+      yield False      # then stays descheduled
+    return R.Task(target=gen)
+  for i, ch in enumerate(plan):
+    if ch == 'B': hub.break_idle()
+    elif ch == 'W':
+      s.schedule(mk(i))
+      ctx.check('schedule() from outside wakes the idle scheduler', ev.flag)
+    elif ch == 'C':
+      s.callLater(lambda i=i: ran.append(('cb', i)))
+      ctx.check('callLater() wakes the idle scheduler', ev.flag)
+    elif ch == 'T':
+      t = mk(i); hub._return(t, None) if hasattr(hub, '_return') else s.fast_schedule(t)
+      ctx.check('a wait handed back by the hub wakes the idle scheduler', ev.flag)
+    elif ch == 'I':
+      before = ev.blocked
+      pending = ev.wakes > seen
+      hub.idle()
+      seen = ev.wakes
+      if pending:
+        ctx.check('idle() after a wake-up returns without blocking', ev.blocked == before)
+      else:
+        ctx.check('idle() with nothing pending blocks once, for at most CYCLE_MAXIMUM', ev.blocked == before + 1 and ev.timeouts[-1] is not None and ev.timeouts[-1] <= R.CYCLE_MAXIMUM)
+      while len(s._ready): s.cycle()          # the scheduler then runs whatever became ready
+  ctx.witness('done')
+
+
 def obligations(tier):
   thorough = tier != 'quick'
   A, T, Rl, Z = 'acq', 'try', 'rel', 'zero'
@@ -163,10 +230,15 @@ def obligations(tier):
            ([[(T, 0), (Rl, 0)], [(T, 0), (Rl, 0)], [(A, 0), (Rl, 0)]], 1)]
   cl = ['cy', 'ccy', 'cyc', 'cycy', 'ccyyc', 'wy', 'wwy', 'wyw', 'cwyc', 'wcwy', 'cccy', 'ywwyy']
   if thorough: cl += ['ccwwyy', 'cycycy', 'wcwcwy', 'ccccy', 'ywywyw']
-  BOUNDS[tier] = dict(lock_programs=len(lp), calllater_plans=cl, legend="c callLater(symbolic: raises?), y scheduler step, w schedule(sleeping task)")
+  import itertools
+  idle_plans = [''.join(p) for n in (1, 2, 3) for p in itertools.product('BWCTI', repeat=n) if 'I' in p]
+  if thorough: idle_plans += [''.join(p) for p in itertools.product('BWCTI', repeat=4) if p.count('I') >= 1]
+  BOUNDS[tier] = dict(lock_programs=len(lp), calllater_plans=cl, idle_plans="all sequences over {B,W,C,T,I} with an idle, length <= %d" % (4 if thorough else 3), legend="c callLater(symbolic: raises?), y scheduler step, w schedule(sleeping task)")
   return [
     Obligation('O1_locks', h_locks, [dict(progs=p, nlocks=n) for p, n in lp], witnesses=('done', 'unheld-release-raised'), max_decisions=20000, mode='int',
                desc='Lock mutual exclusion / hand-off / no lost waiter over task programs'),
     Obligation('O2_handoff', h_calllater, [dict(plan=p) for p in cl], witnesses=('done',), max_decisions=20000, mode='int',
                desc='callLater / schedule at operation granularity: exactly once, in order, inside the scheduler; single queueing of woken tasks'),
+    Obligation('O3_idle', h_idle, [dict(plan=p) for p in idle_plans], witnesses=('done',), mode='int',
+               desc='threaded select hub, operation granularity: a wake-up since the last idle() makes the next idle() return at once; otherwise it blocks <= CYCLE_MAXIMUM'),
   ]
